@@ -192,6 +192,27 @@ Proof.
   vm_compute. reflexivity.
 Qed.
 
+(* ... with the forked block 109 in the universe (hypothesis `Forall (In U) hf` of c07_seamless_cursor_nu): the universe
+   cx_U ++ [109] is in the class of the theorems and the hub is a hub run over it *)
+Definition mx_U : list block := cx_U ++ [cx_f9].
+
+Example c07_more_nonvacuous_cursor_universe :
+  wf_b mx_U = true /\ lib_ok_b LNone mx_U = true /\ hub_of_universe mx_U mx_cc cx_w /\ incl cx_canon mx_U /\
+  Forall (fun x => In x mx_U) [cx_f9] /\ Forall (fun b => bnum b < file_bound) cx_merged /\
+  (cu_step cx_cu = SUndo -> exists X, In X mx_U /\ bref X = cu_blk cx_cu /\ branch_from (cx_b 6) ([cx_b 7; cx_b 8] ++ [cx_f9] ++ [X])).
+Proof.
+  destruct c07_compose_nonvacuous_hyps as (_ & _ & [[l [Hl Hh]] Hr] & _ & _ & _ & _ & _ & _ & _ & Hb & _).
+  split; [vm_compute; reflexivity|]. split; [vm_compute; reflexivity|].
+  split.
+  { split.
+    - exists l. split; [|exact Hh]. intros b p Hin. destruct (Hl b p Hin) as [H1 H2]. split; [unfold mx_U; apply in_or_app; left; exact H1|].
+      destruct p; [exact I|]. intros x Hx. unfold mx_U. apply in_or_app. left. exact (H2 x Hx).
+    - intros b Hbr. unfold mx_U. apply in_or_app. left. exact (Hr b Hbr). }
+  split; [intros b Hbc; unfold mx_U, cx_U; apply in_or_app; left; apply in_or_app; left; exact Hbc|].
+  split; [constructor; [unfold mx_U; apply in_or_app; right; left; reflexivity | constructor]|].
+  split; [exact Hb | intros H; discriminate].
+Qed.
+
 (* target-cursor mode with the custom filter New|Undo and stop block 17: the target cursor of Properties/C07_Compose.v *)
 Definition mx_c4 : jcfg := mkJ 2 0 10 2 5 (Some cx_cu4) 17 2 3.
 
